@@ -150,8 +150,15 @@ func (r *c17RPC) Vote(req *ClusterVoteRequest, resp *ClusterVoteResponse) error 
 	nt := r.node.net
 	atomic.AddInt64(&nt.inflight, 1)
 	defer atomic.AddInt64(&nt.inflight, -1)
-	ev := &c17Ev{Kind: "vote", From: req.Node, To: r.node.name, Term: req.Term}
+	ev := &c17Ev{Kind: "vote", From: req.Node, To: r.node.name, Term: req.Term, Forged: strings.HasPrefix(req.Node, "!")}
+	if ev.Forged {
+		req.Node = strings.TrimPrefix(req.Node, "!")
+		ev.From = req.Node
+	}
 	fate, before, after := nt.decide(req.Node, r.node.name)
+	if ev.Forged && fate != "refused" {
+		fate, before, after = "ok", 0, 0
+	}
 	ev.Fate = fate
 	ev.Seq = nt.tick()
 	if fate == "refused" || fate == "lost-request" {
@@ -365,7 +372,7 @@ func c17Check(r *vfkit.R, cl *c17Cluster, evs []*c17Ev, final []c17State, label 
 	grants := map[key]map[string]bool{}
 	candidate := map[key]bool{}
 	for _, e := range evs {
-		if e.Kind != "vote" {
+		if e.Kind != "vote" || e.Forged {
 			continue
 		}
 		candidate[key{e.From, e.Term}] = true
@@ -825,6 +832,12 @@ func c17Stale(r *vfkit.R, rng *rand.Rand, idx int) {
 		cli.Close()
 	}
 	higher := rng.Intn(2) == 0
+	// every third run: the victim first grants a vote in a newer term (which leaves it without a leader), then
+	// hears the old leader's health check of the old term
+	leaderless := idx%3 == 2
+	if leaderless {
+		higher = false
+	}
 	var imposter string
 	for _, x := range cl.names {
 		if x != leader && x != victim.name {
@@ -844,6 +857,25 @@ func c17Stale(r *vfkit.R, rng *rand.Rand, idx int) {
 		c17Sleep(cl.net, 1)
 		for i := 0; i < 3; i++ {
 			forge(victim, &ClusterHealth{Leader: "!" + imposter, Term: term + 5, Signature: subRing.Signature(), Nodes: sub})
+		}
+	} else if leaderless {
+		blocked := map[string]bool{}
+		for _, a := range cl.names {
+			blocked[a+">"+victim.name] = true
+		}
+		cl.net.setFaults(0, 0, blocked)
+		c17Sleep(cl.net, 1)
+		if conn, err := net.Dial("tcp", victim.lis.Addr().String()); err == nil {
+			cli := rpc.NewClient(conn)
+			var resp ClusterVoteResponse
+			cli.Call("Cluster.Vote", &ClusterVoteRequest{Node: "!" + imposter, Term: term + 3}, &resp)
+			cli.Close()
+		}
+		full := rh.New(clusterHashReplicas, nil)
+		full.Add(cl.names...)
+		for i := 0; i < 3; i++ {
+			forge(victim, &ClusterHealth{Leader: "!" + leader, Term: term, Signature: full.Signature(), Nodes: cl.names})
+			c17Sleep(cl.net, 0.3)
 		}
 	} else {
 		if rng.Intn(2) == 0 {
@@ -887,6 +919,12 @@ func c17Stale(r *vfkit.R, rng *rand.Rand, idx int) {
 			r.Violation("health-not-adopted:forged", fmt.Sprintf("%s: %q received health checks of %q with term %d (its own was %d) and ends with leader %q, term %d", label, victim.name, imposter, term+5, term, vs.leader, vs.term), wit)
 		} else if vs.sig != subRing.Signature() {
 			r.Violation("health-not-adopted:ring", fmt.Sprintf("%s: %q accepted three health checks listing nodes %q (signature %s) and ends with ring signature %s", label, victim.name, sub, subRing.Signature(), vs.sig), wit)
+		}
+	} else if leaderless {
+		r.Hit("stale_health_ignored_when_leaderless")
+		r.Eval("forged:stale-term-after-vote")
+		if vs.term != term+3 || vs.leader != "" {
+			r.Violation("stale-health-accepted:leaderless", fmt.Sprintf("%s: %q granted a vote for term %d (no leader since), then received health checks of %q with the older term %d; it ends with leader %q, term %d", label, victim.name, term+3, leader, term, vs.leader, vs.term), wit)
 		}
 	} else {
 		r.Hit("stale_health_ignored")
